@@ -1,2 +1,2 @@
-(* C01 lemmas: re-export of Proofs1..4 *)
-From QE Require Export C01.Proofs1 C01.Proofs2 C01.Proofs3 C01.Proofs4.
+(* C01 lemmas: re-export of Proofs1..5 *)
+From QE Require Export C01.Proofs1 C01.Proofs2 C01.Proofs3 C01.Proofs4 C01.Proofs5.
